@@ -75,6 +75,22 @@ def oracle(top, res, dist):
     expr = ('Sampler(' if top.get('sampler') else '') + show(tree) + (')' if top.get('sampler') else '')
     exp_ctor = expected_ctor_error(tree)
     if res['ctor_error'] or exp_ctor:
+        if res['ctor_error'] and not exp_ctor and res.get('partial') is not None:
+            # a StaticGenerator samples its child at construction: is that first draw outside the preconditions?
+            for n in gc.walk(tree):
+                if n['op'] == 'static':
+                    tags = set()
+                    try:
+                        gc.ref_rows(n['kid'], 0, res['partial'], tags)
+                    except gc.Precondition as e:
+                        return 'outside-precondition (at construction): ' + str(e)
+                    except gc.Impossible as e:
+                        key = ('+'.join(sorted(tags)) or 'resample-range') + '/' + res['ctor_error']
+                        note_failure(key, top, f'{expr}: StaticGenerator samples its child at construction: {e}; the implementation raised '
+                                     f'{res["ctor_error"]}', 'rows of the underlying draw', res['ctor_error'])
+                        return 'finding:' + key
+                    except Exception:
+                        pass
         if res['ctor_error'] != exp_ctor:
             note_failure(f'constructor/{root}', top, f'{expr}: constructor raised {res["ctor_error"]}, expected {exp_ctor}', exp_ctor, res['ctor_error'])
         return 'ctor-refuses'
@@ -146,8 +162,7 @@ def exhaustive_tops(full):
         yield {'op': 'resample', 'kid': kid, 'r': mid, 'size': None, 'repl': False}
         yield {'op': 'resample', 'kid': kid, 'r': mid, 'size': max(1, n - 1), 'repl': False}
         yield {'op': 'resample', 'kid': kid, 'r': mid, 'size': n + 1, 'repl': True}
-        if d == 1:
-            yield {'op': 'transN', 'kid': kid}
+        yield {'op': 'transN', 'kid': kid}
 
     def binary(a, b, da, db, na, nb):
         for st in ('op', 'ctor'):
@@ -165,6 +180,13 @@ def exhaustive_tops(full):
             for s in unary(leaves(0, d, n), d, n):
                 if s:
                     yield s
+    # depth 3: resample directly over a size-updating filter over a leaf
+    for d in (1, 2, 3):
+        for n in sizes:
+            f = {'op': 'filter', 'kid': leaves(0, d, n), 'm': 0, 'size': None, 'upd': True, 'salt': (n + d) % 5}
+            yield {'op': 'resample', 'kid': f, 'r': 0, 'size': None, 'repl': False}
+            yield {'op': 'resample', 'kid': f, 'r': 0, 'size': max(1, n // 2), 'repl': False}
+            yield {'op': 'resample', 'kid': f, 'r': 0, 'size': n, 'repl': True}
     # depth 2: binary over two leaves
     for da, db in itertools.product((1, 2, 3), repeat=2):
         for na, nb in itertools.product(sizes if full else (1, 2, 3), repeat=2):
@@ -200,9 +222,27 @@ def finding_tops():
     """dedicated inputs for the recorded findings (replayed on every run)"""
     leaf = {'op': 'leaf', 'id': 0, 'size': 8, 'dims': 1, 'form': 'tensor'}
     filt = {'op': 'filter', 'kid': leaf, 'm': 0, 'size': None, 'upd': True, 'salt': 0}
+    # fixed by 184d471 (must pass; a VIOLATION again if the defect returns)
     yield {'sampler': False, 'tree': {'op': 'resample', 'kid': filt, 'r': 0, 'size': None, 'repl': False}, 'calls': 2, 'rng_seed': 1}
+    for seed in (2, 3):
+        for repl in (False, True):
+            yield {'sampler': False, 'tree': {'op': 'resample', 'kid': dict(filt, salt=seed), 'r': 0, 'size': 4 if repl else None, 'repl': repl},
+                   'calls': 3, 'rng_seed': seed}
+    # fixed by e57b511
     leaf2 = {'op': 'leaf', 'id': 0, 'size': 3, 'dims': 2, 'form': 'list'}
     yield {'sampler': False, 'tree': {'op': 'transN', 'kid': leaf2}, 'calls': 1, 'rng_seed': 1}
+    leaf3 = {'op': 'leaf', 'id': 0, 'size': 4, 'dims': 3, 'form': 'tuple'}
+    yield {'sampler': True, 'tree': {'op': 'transN', 'kid': leaf3}, 'calls': 2, 'rng_seed': 1}
+    # fixed by 4431876: a combinator between the resampler and the filter keeps its construction-time .size
+    yield {'sampler': False, 'tree': {'op': 'resample', 'kid': {'op': 'static', 'kid': filt}, 'r': 0, 'size': None, 'repl': False},
+           'calls': 2, 'rng_seed': 1}
+    yield {'sampler': False, 'tree': {'op': 'resample', 'kid': {'op': 'transL', 'kid': filt, 'ts': [3]}, 'r': 0, 'size': None, 'repl': False},
+           'calls': 3, 'rng_seed': 1}
+    nofilt = dict(filt, upd=False, size=8)
+    yield {'sampler': False, 'tree': {'op': 'resample', 'kid': nofilt, 'r': 0, 'size': 3, 'repl': True}, 'calls': 3, 'rng_seed': 4}
+    leafb = {'op': 'leaf', 'id': 1, 'size': 3, 'dims': 1, 'form': 'tensor'}
+    yield {'sampler': True, 'tree': {'op': 'resample', 'kid': {'op': 'concat', 'kids': [filt, leafb], 'style': 'op'}, 'r': 0, 'size': None,
+                                     'repl': False}, 'calls': 3, 'rng_seed': 5}
 
 
 def offprecondition_tops(r):
@@ -301,7 +341,7 @@ def main():
         if len(bad) > 3:
             ck.broke('correspondence-broken', 'cases:corr', f'{len(bad)} cases differ in total')
 
-    known = {'resample-stale-size/IndexError', 'transform-default-multidim/TypeError'}
+    known = set()     # keys of the OPEN findings (none at present)
     if ck.broken and not (set(BEST) - known):
         ck.notes.append('search: after a broken obligation the implementation oracle was re-run on 12000 more random trees and the full exhaustive set')
         rs = ck.rng('search')
@@ -313,7 +353,7 @@ def main():
 
 
 TRUSTED = ['coq/model/GenComb.v is a hand-written model of the combinator classes of generators.py (read line by line: isinstance '
-           'dispatch, zip truncation, construction-time .size, size-updating filter, index draw before the child draw); tied to the code by '
+           'dispatch, zip truncation, construction-time .size, size-updating filter, child sampled before the index draw over the rows returned); tied to the code by '
            'the in-kernel correspondence cases and the implementation-level reference interpreter on every run',
            'modelled not verified: torch.cat = append, boolean-mask and index-vector indexing = select / gather, '
            'torch.meshgrid(indexing=ij)+flatten = transposed row-major Cartesian product, reshape(-1,1) = a flag',
@@ -321,9 +361,9 @@ TRUSTED = ['coq/model/GenComb.v is a hand-written model of the combinator classe
 ASSUME = ['the tree is built from fresh generator objects (no object shared between two parents), so the k-th top-level call reads the k-th '
           'draw of every leaf not below a StaticGenerator',
           'leaves return one vector per dimension, all of one length; user transforms act pointwise for the row-pairing theorem',
-          'ensemble children have equal run-time sizes, mesh children are one-dimensional, transforms lists have one entry per dimension, '
-          'resample indices lie inside the draw (preconditions of C13_rows_paired; outside them the model still follows the code and is '
-          'compared, but the property claims nothing)',
+          'ensemble children have equal run-time sizes, mesh children are one-dimensional, transforms lists have one entry per dimension '
+          '(preconditions of C13_rows_paired; outside them the model still follows the code and is compared, but the property claims '
+          'nothing); sampling WITH replacement needs a non-empty draw',
           'randperm returns a permutation of range(n), randint values below n (oracle contract)']
 
 
